@@ -197,7 +197,7 @@ Reply(i) ==
                [] kind = "nx" -> m' = [m EXCEPT !.flight = left, !.phase = next, !.err = "nx"]
                \* truncated: from now on prefer TCP; the server is asked again, ahead of the others, if it
                \* can be asked over TCP (asis: it is re-queued regardless and dropped when its turn comes)
-               [] kind = "trunc" -> m' = [m EXCEPT !.flight = left, !.phase = next, !.noUdp = TRUE,
+               [] kind \in {"trunc", "mismatch"} -> m' = [m EXCEPT !.flight = left, !.phase = next, !.noUdp = TRUE,
                                                    !.queue = IF a.p = "udp" /\ (UdpRule = "asis" \/ HasProto(Srv(a.s), "tcp"))
                                                              THEN <<a.s>> \o m.queue ELSE m.queue]
                [] kind = "busy" -> m' = [m EXCEPT !.flight = left, !.phase = next, !.busy = Append(m.busy, a.s)]
